@@ -73,6 +73,19 @@ def run(tier):
         for at in (0, 1, 2):
             scs.append({"m": m, "ab": [{"payload": 10, "fault": "refuse", "at": at}], "ba": []})
             scs.append({"m": m, "ab": [{"payload": 10, "fault": "close", "at": at}], "ba": []})
+    # concurrent transfers in one direction in which a later (higher id) transfer finishes before an earlier one
+    for m in ([7, 64] if quick else [1, 7, 20, 64, 150]):
+        scs.append({"m": m, "ab": [{"payload": 250, "fault": "none", "at": 0, "after": 2}, {"payload": 0, "fault": "none", "at": 0}], "ba": []})
+        scs.append({"m": m, "ab": [{"payload": 30, "fault": "none", "at": 0, "after": 3}, {"payload": 9, "fault": "none", "at": 0, "after": 3}, {"payload": 60, "fault": "none", "at": 0}],
+                    "ba": [{"payload": 20, "fault": "none", "at": 0, "after": 2}, {"payload": 3, "fault": "none", "at": 0}]})
+        scs.append({"m": m, "ab": [{"payload": 150, "fault": "none", "at": 0}, {"payload": 40, "fault": "none", "at": 0}, {"payload": 1, "fault": "none", "at": 0}],
+                    "ba": [{"payload": 120, "fault": "none", "at": 0}, {"payload": 3, "fault": "none", "at": 0}]})
+    # seeded random scenarios
+    for _ in range(6 if quick else 80):
+        def xf(faulty):
+            f = rng.choice(["none", "none", "none", "refuse"]) if faulty else "none"
+            return {"payload": rng.choice([0, 1, 5, 30, 90, 200]), "fault": f, "at": rng.randint(0, 3)}
+        scs.append({"m": rng.choice([1, 2, 3, 5, 7, 11, 16, 33, 64, 100, 1000]), "ab": [xf(True) for _ in range(rng.randint(1, 3))], "ba": [xf(False) for _ in range(rng.randint(0, 2))]})
     for m, at in ([(7, 1), (200, 0)] if quick else [(1, 0), (7, 1), (7, 3), (50, 1), (200, 0), (200, 1)]):
         scs.append({"m": m, "ab": [{"payload": 10, "fault": "dropacks", "at": at}], "ba": []})
     inp2 = write_input("c11-sc.ndjson", scs)
